@@ -278,6 +278,9 @@ def judge(ctx, histories, label, strict_every=4):
                               "ip": ip, "at": drift[tid]["reached"], "history": _short(h)})
         print(f"[{ctx.pid}] algorithm-model agreement {label}: {agree}/{len(twins)} strict traces (cursor value and "
               f"group order equal the model's)", flush=True)
+        if only_model:
+            print(f"DRIFT: property={ctx.pid} {len(only_model)} strict traces: the code's cursor value / group order "
+                  f"differs from the Scan/Split model while every property holds (informational)", flush=True)
     return v, [t for t in traces if not t["strict"]]
 
 
@@ -307,7 +310,7 @@ def run(ctx):
 
     try:
         # E2: histories
-        n_walks, n_gen = (400, 1000) if ctx.quick else (4000, 20000)
+        n_walks, n_gen = (400, 1000) if ctx.quick else (2000, 10000)
         walks = tlc.simulate("SearchSpaceMC", "SearchSpaceSim", num=n_walks, depth=45, seed=ctx.seed + 1, timeout=900)
         histories = [walk_to_history(b, ctx.rng) for b in walks]
         histories += [gen_history(ctx.rng) for _ in range(n_gen)]
